@@ -159,6 +159,68 @@ theorem T2_else_syntax_guarded (env : Env) (fuel : Nat) (source : Str) (toks : L
     have : (Str.splitOn '\n' source).length - 1 < (Str.splitOn '\n' source).length := by omega
     simp [List.getElem?_eq_getElem this]
 
+/-! ## error position (`SyntaxParser.parse`, syntax.py:116-118) -/
+
+/-- `max(0, length - 1 - peek)` indexes the token list for EVERY value of `peek` as soon as there is a token: the cause token
+    handed to `ErrorCollector` always exists (never index -1 / IndexError), whatever the matcher recorded. -/
+theorem error_index_in_range (toks : List Tok) (peek : Nat) (h : toks ≠ []) :
+    causeIndex toks.length peek < toks.length ∧ ∃ cause, toks[causeIndex toks.length peek]? = some cause := by
+  have hlen : 0 < toks.length := List.length_pos_iff.mpr h
+  have hi : causeIndex toks.length peek < toks.length := by unfold causeIndex; omega
+  exact ⟨hi, _, List.getElem?_eq_getElem hi⟩
+
+/-- it is the token `peek` positions left of the last one while `peek` stays inside the list, and the first token beyond that
+    (the clamp of `max(0, …)`) -/
+theorem error_index_value (length peek : Nat) :
+    (peek < length → causeIndex length peek + peek + 1 = length) ∧ (length ≤ peek + 1 → causeIndex length peek = 0) := by
+  unfold causeIndex
+  exact ⟨fun _ => by omega, fun _ => by omega⟩
+
+example : causeIndex 6 5 = 0 ∧ causeIndex 6 1 = 4 ∧ causeIndex 6 9 = 0 := by decide
+
+/-! ## reserved words (`Rules.keywords`, rule.py:328-351; `_compare_token`, syntax.py:310-312) -/
+
+/-- The memoised keyword list holds the expression of every terminal of every rule — in particular of rules whose whole
+    right side is one bare terminal (`break := "break"`, `none := "None"`, `op_or := "or"`) — and only those. -/
+theorem keywords_exact (R : Rules) (e : Str) : e ∈ keywords R ↔ ∃ kv ∈ R, e ∈ collectKeyword kv.2 :=
+  ⟨keywords_sound, fun ⟨_, hkv, he⟩ => mem_keywords hkv he⟩
+
+/-- A token whose string is a keyword never matches a regexp terminal, whatever the regexp oracle says: keywords match
+    `Equals` terminals only. -/
+theorem keywords_excluded (env : Env) (tok : Tok) (e : Str) (h : tok.str ∈ env.kw) :
+    compareToken env tok e .regexp = .ok false := by
+  simp [compareToken, h]
+
+/-- ASCII identifier shape, the language of the `name` regexp `[a-zA-Z_]\w*` -/
+def isIdent (s : Str) : Bool :=
+  match s with
+  | [] => false
+  | c :: cs => (c.isAlpha || c = '_') && cs.all (fun d => d.isAlphanum || d = '_')
+
+def strs (xs : List String) : List Str := xs.map String.toList
+
+/-- **Reserved words of the shipped Python rules, against an independent reading of the grammar text.** The string terminals
+    in `py_rules()`'s keyword list are exactly the string terminals of data/syntax/py_gram.lark as the harness's own reader
+    sees them (same order); the single-terminal rules contribute theirs; and the identifier-shaped ones — the words the
+    `name` regexp may NOT match — are exactly the 17 listed. `True` / `False` are not among them: `boolean` is a regexp
+    terminal tried before `var` in `atom`. -/
+theorem reserved_words_py :
+    (keywords Generated.pyRules).filter (fun k => !Generated.pyRegexps.contains k) = Generated.pyLarkStrings ∧
+    (Generated.pyLarkSingleTerminalRules.all fun r =>
+      match getRule Generated.pyRules r with
+      | .ok (.pattern e .terminal .equals) => (keywords Generated.pyRules).contains e
+      | _ => false) = true ∧
+    (keywords Generated.pyRules).filter isIdent =
+      [['b','r','e','a','k'], ['c','o','n','t','i','n','u','e'], ['r','e','t','u','r','n'], ['r','a','i','s','e'], ['d','e','f'],
+       ['i','f'], ['e','l','i','f'], ['e','l','s','e'], ['f','o','r'], ['i','n'], ['w','h','i','l','e'], ['l','a','m','b','d','a'],
+       ['o','r'], ['a','n','d'], ['i','s'], ['n','o','t'], ['N','o','n','e']] := by
+  decide +kernel
+
+/-- the same tie for the meta-grammar: its keyword list is its seven punctuation terminals followed by its five regexps -/
+theorem reserved_words_gram :
+    keywords Generated.gramRules = Generated.gramLarkStrings ++ Generated.gramLarkRegexps := by
+  decide +kernel
+
 /-! ## T3 — yield -/
 
 /-- The consumed tokens of a successful match are exactly the span under the cursor, in source order, each consumed once;
